@@ -82,8 +82,8 @@ Section Steps.
   Lemma ms_ce l a : mon_step kt kd (mkM l false) (E_ DVU_CALLOUT_END a 0 1) = Some (mkM l false).
   Proof. reflexivity. Qed.
   Lemma ms_or l old op : mon_step kt kd (mkM l false) (E_ DV_OR old op 1) =
-    if (op =? DSF_CANCELED) || (op =? DQF_RELEASED) || (op =? DQF_BARRIER_BIT) || (op =? DQF_TARGETED) || (op =? DSF_WLH_CHANGED)
-    then Some (mkM l false) else None.
+    if (op =? DSF_CANCELED) || (op =? DQF_RELEASED) then Some (mkM None false)
+    else if (op =? DQF_BARRIER_BIT) || (op =? DQF_TARGETED) || (op =? DSF_WLH_CHANGED) then Some (mkM l false) else None.
   Proof. reflexivity. Qed.
   Lemma ms_cas old seen new ok :
     mon_step kt kd (mkM (Some old) false) (E_ DV_CAS seen new ok) =
@@ -303,6 +303,9 @@ Definition thread_ok (g : gst) (t : Z) (a : act) : Prop :=
   match a with
   | GActivate _ | GInvoke _ | GPhase _ => forall d, cpc g t <> CWTest d
   | GCawStep _ _ | GFutexRet => is_owner g t = false     (* the wait loop runs outside the drain lock *)
+  (* cancel / release are calls of their own: not from inside the wait loop, and from inside an invoke only out of a callout *)
+  | GCancel cx => (forall d, cpc g t <> CWTest d) /\ (cx <> CxHandler -> is_owner g t = false)
+  | GRelease => (forall d, cpc g t <> CWTest d) /\ is_owner g t = false
   | _ => True
   end.
 
